@@ -39,7 +39,7 @@ PROPS = {
     ),
     'C06': dict(
         harness='brokertrace', syn=True, args=['-prop', 'C06'], shards=dict(quick=8, thorough=16),
-        rule='random histories of connect/subscribe(1-4 filters, differing QoS)/unsubscribe/publish/ack over 1-5 clients, 8 topics x 14 filters with wildcards and overlaps, all QoS pairs; every broker output must be an enabled output of the Lean broker model; delivery monitor (independent 4.7 matcher) on the real outputs; distinct = distinct traces',
+        rule='random histories of connect/subscribe(1-4 filters, differing QoS)/unsubscribe/publish/ack over 1-5 clients, 8 topics x 14 filters with wildcards and overlaps, all QoS pairs; every broker output must be an enabled output of the Lean broker model; delivery monitor (independent 4.7 matcher) on the real outputs; distinct = distinct traces; plus directed backlog cases: deliveries wait in the session queue (window 1) while the subscriber unsubscribes / lowers / raises / overlaps the filter they were queued under',
         assumptions=['scripted peers at quiescence granularity inside a testing/synctest bubble (go1.26): one stimulus, then every goroutine of the broker durably blocked, then the next',
                      'not modelled: a publish blocking on the full queue of another online client, a processor blocked on an exhausted publish/subscribe token (the generators stay inside; the model answers unsupported otherwise)'],
     ),
@@ -51,13 +51,13 @@ PROPS = {
     ),
     'C08': dict(
         harness='brokertrace', syn=True, args=['-prop', 'C08'], shards=dict(quick=8, thorough=16),
-        rule='offline-queue scripts (queue 3/5/100, window 1-4, loss during resend) and random subscriber behaviours (ack, withhold, drop, reconnect clean/unclean, failing sends); once per run (shard 0) a packet-id wrap-around: window 2, the first delivery never acknowledged, 65535 further QoS 1 deliveries each acknowledged at once, drop, unclean resume (about 460000 model-checked lines); distinct = distinct traces',
+        rule='offline-queue scripts (queue 3/5/100, window 1-4, loss during resend) and random subscriber behaviours (ack, withhold, drop, reconnect clean/unclean, failing sends); once per run (shard 0) a packet-id wrap-around: window 2, the first delivery never acknowledged, 65535 further QoS 1 deliveries each acknowledged at once, drop, unclean resume (about 460000 model-checked lines); distinct = distinct traces; resumes cut while the CONNACK or the first retransmission is written, followed by more offline traffic',
         assumptions=['scripted peers at quiescence granularity inside a testing/synctest bubble (go1.26): one stimulus, then every goroutine of the broker durably blocked, then the next',
                      'not modelled: a publish blocking on the full queue of another online client, a processor blocked on an exhausted publish/subscribe token (the generators stay inside; the model answers unsupported otherwise)'],
     ),
     'C11': dict(
         harness='brokertrace', syn=True, args=['-prop', 'C11'], shards=dict(quick=8, thorough=16),
-        rule='random histories with 60% retained publishes, empty-payload clears, retained wills, frequent subscriptions with 14 filters; distinct = distinct traces',
+        rule='random histories with 60% retained publishes, empty-payload clears, retained wills, frequent subscriptions with 14 filters; distinct = distinct traces; topic names with empty levels (a/, a//b, /), the same payload re-published at another QoS, retained replays waiting in the queue while subscriptions change, more retained messages than the session queue holds',
         assumptions=['scripted peers at quiescence granularity inside a testing/synctest bubble (go1.26): one stimulus, then every goroutine of the broker durably blocked, then the next',
                      'not modelled: a publish blocking on the full queue of another online client, a processor blocked on an exhausted publish/subscribe token (the generators stay inside; the model answers unsupported otherwise)'],
     ),
@@ -69,13 +69,13 @@ PROPS = {
     ),
     'C13': dict(
         harness='brokertrace', syn=True, args=['-prop', 'C13'], shards=dict(quick=8, thorough=16),
-        rule='takeover scripts: repeated CONNECTs with one client id (clean/unclean) against an old connection that is idle, mid-handshake, failing or dropped, with traffic towards the id; monitors: one live connection per id, old terminated before new CONNACK; distinct = distinct traces',
+        rule='takeover scripts: repeated CONNECTs with one client id (clean/unclean) against an old connection that is idle, mid-handshake, failing or dropped, with traffic towards the id; monitors: one live connection per id, old terminated before new CONNACK; distinct = distinct traces; the old holder may have widened its window with a spurious PUBACK (more stored deliveries than window slots); the old dequeuer may be parked between two deliveries with a backlog queued (monitors only)',
         assumptions=['scripted peers at quiescence granularity inside a testing/synctest bubble (go1.26): one stimulus, then every goroutine of the broker durably blocked, then the next',
                      'not modelled: a publish blocking on the full queue of another online client, a processor blocked on an exhausted publish/subscribe token (the generators stay inside; the model answers unsupported otherwise)'],
     ),
     'C14': dict(
         harness='brokertrace', syn=True, args=['-prop', 'C14'], shards=dict(quick=8, thorough=16),
-        rule='hostile random histories (out-of-protocol packets, spurious acks, second CONNECT, drops, failing sends, wills, retained) next to ordinary traffic; monitors: terminate exactly once per setup, closed signal fires, no goroutine left (synctest bubble must drain), process crash = violation; distinct = distinct traces',
+        rule='hostile random histories (out-of-protocol packets, spurious acks, second CONNECT, drops, failing sends, wills, retained) next to ordinary traffic; monitors: terminate exactly once per setup, closed signal fires, no goroutine left (synctest bubble must drain), process crash = violation; distinct = distinct traces; directed: own-queue flood, slow subscriber that goes away, retained flood towards a silent subscriber, connect after backend shutdown, clients connecting/subscribing/publishing while the backend shuts down, 64 KiB / 3000-level topics; a real-time watchdog reports goroutines blocked for good (mutex deadlocks are invisible to synctest)',
         assumptions=['scripted peers at quiescence granularity inside a testing/synctest bubble (go1.26): one stimulus, then every goroutine of the broker durably blocked, then the next',
                      'not modelled: a publish blocking on the full queue of another online client, a processor blocked on an exhausted publish/subscribe token (the generators stay inside; the model answers unsupported otherwise)'],
     ),
@@ -89,13 +89,13 @@ PROPS = {
     ),
     'C16': dict(
         harness='brokertrace', syn=True, args=['-prop', 'C16'], shards=dict(quick=8, thorough=16),
-        rule='windows 1-4, two clients, long publish streams with immediate/batched/out-of-order acks and reconnects; window monitor on the real outputs; the model requires delivery whenever a token is free; distinct = distinct traces',
+        rule='windows 1-4, two clients, long publish streams with immediate/batched/out-of-order acks and reconnects; window monitor on the real outputs; the model requires delivery whenever a token is free; distinct = distinct traces; idle periods longer than the token timeout; a long stream into a small session queue (the publisher waits for room inside the backend)',
         assumptions=['scripted peers at quiescence granularity inside a testing/synctest bubble (go1.26): one stimulus, then every goroutine of the broker durably blocked, then the next',
                      'not modelled: a publish blocking on the full queue of another online client, a processor blocked on an exhausted publish/subscribe token (the generators stay inside; the model answers unsupported otherwise)'],
     ),
     'C20': dict(
         harness='brokertrace', syn=True, args=['-prop', 'C20'], shards=dict(quick=8, thorough=16),
-        rule='first packet = each of the 14 types (CONNECT with valid/invalid/missing credentials), then 1-3 further packets incl. second CONNECT, server-only packets, pipelined batches of SUBSCRIBE/UNSUBSCRIBE/PINGREQ/PUBLISH; request/response monitor; distinct = (first packet, follow-ups, credentials)',
+        rule='first packet = each of the 14 types (CONNECT with valid/invalid/missing credentials), then 1-3 further packets incl. second CONNECT, server-only packets, pipelined batches of SUBSCRIBE/UNSUBSCRIBE/PINGREQ/PUBLISH; request/response monitor; distinct = (first packet, follow-ups, credentials); a failing Backend.Restore after acceptance; a peer that pipelines requests and stops reading while a second client connects; retained overflow on SUBSCRIBE',
         assumptions=['scripted peers at quiescence granularity inside a testing/synctest bubble (go1.26): one stimulus, then every goroutine of the broker durably blocked, then the next',
                      'not modelled: a publish blocking on the full queue of another online client, a processor blocked on an exhausted publish/subscribe token (the generators stay inside; the model answers unsupported otherwise)'],
     ),
@@ -156,3 +156,8 @@ PROPS = {
                      'async Send into a locally closed connection succeeds (as BaseConn buffers it), a failed Send closes the carrier'],
     ),
 }
+
+# additions made with the later seeded rounds
+PROPS['C18']['rule'] += '; Reset of counters restored at any value; a full allocation run on a session holding packets; the restore constructor (NewPacketStoreWithPackets) with repeated ids and id-less packets; listings kept and re-read after later operations'
+PROPS['C04']['rule'] += '; sets with a past (entries added and removed / emptied again, also level-wise prefixes of stored filters); distinct deeply-equal values'
+PROPS['C03']['rule'] += '; a read limit set while Read waits; a carrier that takes a large write in two halves while another stream of the process decodes and encodes (encoder buffer ownership)'
